@@ -68,7 +68,7 @@ Definition fifo_law (s s' : state) (o : list output) (new : list nat) : Prop :=
 (* at most one request is written per step, and only into PInFlight *)
 Definition wire_law (s s' : state) (o : list output) : Prop :=
   wire_ids o = [] \/
-  (exists r tx d, wire_ids o = [rq_id r] /\ ph s' = PInFlight r tx d /\
+  (exists r tx d, wire_ids o = [rq_id r] /\ ph s' = PInFlight r tx d /\ d = now s + rq_timeout r /\
                   (ph s = PIdle \/ exists u, ph s = PWriting r tx u)).
 
 Definition laws (s s' : state) (o : list output) (new : list nat) : Prop :=
@@ -84,8 +84,8 @@ Proof.
 Qed.
 
 Lemma laws_pre_state s0 s s' o new :
-  txid s0 = txid s -> waiting s0 = waiting s -> ph s0 = ph s -> laws s0 s' o new -> laws s s' o new.
-Proof. unfold laws, tx_law, fifo_law, wire_law. intros -> -> ->. auto. Qed.
+  txid s0 = txid s -> waiting s0 = waiting s -> ph s0 = ph s -> now s0 = now s -> laws s0 s' o new -> laws s s' o new.
+Proof. unfold laws, tx_law, fifo_law, wire_law. intros -> -> -> ->. auto. Qed.
 
 Section Laws.
 Variable cfg : config.
@@ -266,7 +266,7 @@ Proof.
   - (* tail *)
     destruct (reading (ph s)); [|apply laws_nochange; reflexivity]. destruct (partial s) as [[tx k]|]; [|apply laws_nochange; reflexivity].
     pose proof (on_frame_laws (set_partial s None) tx k) as H. destruct (on_frame (set_partial s None) tx k) as [s' o].
-    eapply laws_pre_state; [| | |exact H]; reflexivity.
+    eapply laws_pre_state; [| | | |exact H]; reflexivity.
   - (* garbage *)
     destruct (reading (ph s)); [|apply laws_nochange; reflexivity]. destruct (partial s); [apply laws_nochange; reflexivity|].
     apply on_read_error_laws.
@@ -353,14 +353,14 @@ Variable cfg : config.
 
 Lemma c11_one_outstanding s e r tx d : ph s = PInFlight r tx d -> wire_ids (snd (step cfg s e)) = [].
 Proof.
-  intros Eph. pose proof (step_laws cfg s e) as H. destruct (step cfg s e) as [s' o]. destruct H as (_ & _ & [H|(r' & tx' & d' & _ & _ & [H|[u H]])]);
+  intros Eph. pose proof (step_laws cfg s e) as H. destruct (step cfg s e) as [s' o]. destruct H as (_ & _ & [H|(r' & tx' & d' & _ & _ & _ & [H|[u H]])]);
   [exact H|rewrite Eph in H; discriminate|rewrite Eph in H; discriminate].
 Qed.
 
 Lemma c11_one_write_per_step s e : (length (wire_ids (snd (step cfg s e))) <= 1)%nat /\
   (forall id, In id (wire_ids (snd (step cfg s e))) -> exists r tx d, ph (fst (step cfg s e)) = PInFlight r tx d /\ rq_id r = id).
 Proof.
-  pose proof (step_laws cfg s e) as H. destruct (step cfg s e) as [s' o]. destruct H as (_ & _ & [H|(r & tx & d & H & Hp & _)]); cbn [fst snd]; rewrite H.
+  pose proof (step_laws cfg s e) as H. destruct (step cfg s e) as [s' o]. destruct H as (_ & _ & [H|(r & tx & d & H & Hp & _ & _)]); cbn [fst snd]; rewrite H.
   - split; [cbn; lia|intros id []].
   - split; [cbn; lia|]. intros id [<-|[]]. exists r, tx, d. auto.
 Qed.
